@@ -1,5 +1,6 @@
 import GqlgenVerif.Lemmas.Defer
 import GqlgenVerif.Lemmas.DeferSpec
+import GqlgenVerif.Lemmas.DeferSched
 /-!
 # C13 — `@defer` changes delivery, not content
 
@@ -27,6 +28,16 @@ executable Lean definition that the driver evaluates on every generated case - o
 payload sequence and on the defer model's - against the implementation's plain run; here it is shown to
 accept what it must (`statement_accepts_plain_response`) and to reject concrete wrong sequences
 (`statement_rejects_*`). That the defer model's sequence satisfies `check` for every plan is not a theorem.
+
+The worklist of started groups (`D.runGroups`, the function the C13 driver runs) is characterised for every plan,
+oracle and fuel (`Lemmas/DeferSched.lean`): `every_started_group_is_delivered_once` (one payload per scheduled group
+with that group's path and label; the scheduled groups are the initially started ones followed by the groups the
+delivered ones start - the breadth-first equation - so the number of payloads is the number of starts),
+`delivered_after_its_starter` (a delivered group is an initial one or was started by a strictly earlier delivery: in
+the model's serial order no group precedes the group that starts it; F13a is the implementation's concurrent order
+departing from this), `group_payload_is_spec` (a group without nested `@defer` delivers exactly the Spec completion
+of its fields and its errors, and starts nothing) and `one_level_model_merge` (the defer model's own payloads of one
+object's groups, merged in any arrival order by the statement's `setKeys`, give the plain object).
 -/
 namespace GqlgenVerif.C13
 open GqlgenVerif D Spec
@@ -165,6 +176,132 @@ example :
     DeferSpec.setKeys (DeferSpec.view (fun k => !(["b"]).contains k) [("a", .leaf "1"), ("b", .leaf "2")])
       [("b", .leaf "2")] = [("a", .leaf "1"), ("b", .leaf "2")] := by
   simp [DeferSpec.setKeys, DeferSpec.view]
+
+/-! ## the worklist of started groups (`D.runGroups`) -/
+
+/-- **Every started group is delivered, once per start, with its own path and label.** For every oracle, fuel and
+initial worklist on which the fuel is not exhausted: the payload sequence has one payload per scheduled group, carrying
+that group's path and label; the scheduled groups are exactly the initial ones followed by the groups that delivered
+groups start, in delivery order; so the number of payloads equals the number of starts. -/
+theorem every_started_group_is_delivered_once (o : Oracle) (fuel : Nat) (gs : List Group)
+    (hfuel : (D.runGroups o fuel gs []).length < fuel) :
+    (D.runGroups o fuel gs []).map (fun p => (p.path, p.label)) =
+      (D.schedule o fuel gs).map (fun g => (g.path, g.label)) ∧
+    D.schedule o fuel gs = gs ++ (D.schedule o fuel gs).flatMap (D.startedBy o) ∧
+    (D.runGroups o fuel gs []).length =
+      gs.length + ((D.schedule o fuel gs).map fun g => (D.startedBy o g).length).sum := by
+  have hrun := runGroups_eq o fuel gs []
+  simp only [List.nil_append] at hrun
+  have hlen : (D.schedule o fuel gs).length < fuel := by simpa [hrun] using hfuel
+  have hbfs := schedule_bfs o fuel gs hlen
+  refine ⟨?_, hbfs, ?_⟩
+  · rw [hrun, List.map_map]; rfl
+  · rw [hrun, List.length_map]
+    conv => lhs; rw [hbfs]
+    simp [List.length_flatMap]
+
+/-- **No group is delivered before the group that starts it** (serial order of the model, every fuel): the `i`-th
+incremental payload belongs to an initially started group or to a group started by the group of an earlier payload. -/
+theorem delivered_after_its_starter (o : Oracle) (fuel : Nat) (gs : List Group) (i : Nat)
+    (hi : i < (D.schedule o fuel gs).length) :
+    (D.schedule o fuel gs)[i] ∈ gs ∨
+      ∃ j, ∃ (hj : j < i), (D.schedule o fuel gs)[i] ∈ D.startedBy o ((D.schedule o fuel gs)[j]'(by omega)) :=
+  schedule_causal o fuel gs i hi
+
+/-- **A group without nested `@defer` delivers the Spec completion of its fields.** For every oracle and every group
+whose fields have distinct response keys and whose sub-selections contain no `@defer`: the defer model's payload for the
+group is `null` exactly when the Spec completion of the group's fields fails and otherwise the object of exactly the
+Spec's key/value pairs; it reports exactly the Spec's errors; and the group starts no further group. -/
+theorem group_payload_is_spec (o : Oracle) (g : Group) (hwf : fieldsWF g.fields) (hnd : fieldsSubNoDefer g.fields) :
+    D.startedBy o g = [] ∧
+    (D.payloadOf o g).data =
+      (match (Spec.completeFields o g.ty g.fields g.path).1 with
+       | some vals => Out.obj vals
+       | none => Out.null) ∧
+    (D.payloadOf o g).st.errs = (Spec.completeFields o g.ty g.fields g.path).2.errs := by
+  obtain ⟨h1, h2, h3⟩ := groups_noNested o g hnd
+  have rel := fields_rel o g.ty g.fields g.path {} hwf (by intro f _ x hx; simp at hx)
+  refine ⟨h1, ?_, ?_⟩
+  · rw [h2]
+    cases hs : (Spec.completeFields o g.ty g.fields g.path).1 with
+    | none =>
+      have : (Impl.completeFields o g.ty g.fields g.path {}).2.1 > 0 := rel.inval.mpr hs
+      simp [this]
+    | some vals =>
+      have hne : ¬ (Impl.completeFields o g.ty g.fields g.path {}).2.1 > 0 := by
+        intro h; have := rel.inval.mp h; rw [hs] at this; cases this
+      simp only [hne, ↓reduceIte]
+      rw [rel.vals vals hs]
+  · rw [h3, rel.st_eq]; simp [St.append]
+
+/-- distinct response keys and well-formed sub-selections make a field list well-formed -/
+theorem fieldsWF_of_nodup : ∀ (fs : List (FInfo × Shape)), (fs.map (·.1.alias)).Nodup → (∀ f ∈ fs, f.2.WF) → fieldsWF fs
+  | [], _, _ => by simp [fieldsWF]
+  | (fi, sh) :: rest, hnd, hwf => by
+    simp only [List.map_cons, List.nodup_cons, List.mem_map, not_exists, not_and] at hnd
+    simp only [fieldsWF]
+    refine ⟨fun g hg h => hnd.1 g hg h, hwf (fi, sh) (by simp), ?_⟩
+    exact fieldsWF_of_nodup rest hnd.2 (fun f hf => hwf f (List.mem_cons_of_mem _ hf))
+
+theorem fieldsSubNoDefer_of_forall : ∀ (fs : List (FInfo × Shape)), (∀ f ∈ fs, f.2.noDefer) → fieldsSubNoDefer fs
+  | [], _ => by simp [fieldsSubNoDefer]
+  | (fi, sh) :: rest, h => by
+    simp only [fieldsSubNoDefer]
+    exact ⟨h (fi, sh) (by simp), fieldsSubNoDefer_of_forall rest (fun f hf => h f (List.mem_cons_of_mem _ hf))⟩
+
+/-- **One object, the defer model's own payloads, any arrival order.** For every object (type `ty`, path `p`) whose
+fields have distinct response keys, well-formed sub-selections without nested `@defer`, and whose plain completion
+succeeds: the groups the defer model starts for it (`groupByLabel`, one per label, with the object's path) each deliver an
+object payload, and setting the keys of those payloads - in ANY order of the groups - into the initial object (deferred
+slots `null`) with the statement's client merge gives exactly the plain key/value list. -/
+theorem one_level_model_merge (o : Oracle) (ty : String) (p : Path) (fs : List (FInfo × Shape))
+    (plainVals : List (String × Out)) (h : (Spec.completeFields o ty fs p).1 = some plainVals)
+    (hnd : (fs.map (·.1.alias)).Nodup) (hwf : ∀ f ∈ fs, f.2.WF) (hsub : ∀ f ∈ fs, f.2.noDefer)
+    (order : List (String × List (FInfo × Shape))) (hperm : order.Perm (groupByLabel fs [])) :
+    (order.map fun lg =>
+        match (D.payloadOf o { path := p, label := lg.1, ty := ty, fields := lg.2 }).data with
+        | .obj vals => vals
+        | _ => []).foldl DeferSpec.setKeys (initialObject fs plainVals) = plainVals := by
+  obtain ⟨hsome, hmerge⟩ := one_level_client_merge o ty p fs plainVals h hnd order hperm
+  have key : (order.map fun lg =>
+        match (D.payloadOf o { path := p, label := lg.1, ty := ty, fields := lg.2 }).data with
+        | .obj vals => vals
+        | _ => []) = order.map fun g => ((Spec.completeFields o ty g.2 p).1).getD [] := by
+    apply List.map_congr_left
+    intro lg hlg
+    -- the fields of a group are fields of the object, each once
+    have hpart := each_deferred_field_in_exactly_one_group fs
+    have hmemG : lg ∈ groupByLabel fs [] := hperm.mem_iff.mp hlg
+    have hsubl : lg.2.Sublist ((groupByLabel fs []).flatMap (·.2)) := by
+      rw [List.flatMap_def]
+      exact List.sublist_flatten_of_mem (List.mem_map.mpr ⟨lg, hmemG, rfl⟩)
+    have hndflat : (((groupByLabel fs []).flatMap (·.2)).map (·.1.alias)).Nodup :=
+      (hpart.map _).nodup_iff.mpr ((hnd.sublist (List.filter_sublist.map _)))
+    have hndg : (lg.2.map (·.1.alias)).Nodup := hndflat.sublist (hsubl.map _)
+    have hin : ∀ f ∈ lg.2, f ∈ fs := fun f hf =>
+      (List.mem_filter.mp (hpart.mem_iff.mp (List.mem_flatMap.mpr ⟨lg, hmemG, hf⟩))).1
+    have hspec := group_payload_is_spec o { path := p, label := lg.1, ty := ty, fields := lg.2 }
+      (fieldsWF_of_nodup lg.2 hndg (fun f hf => hwf f (hin f hf)))
+      (fieldsSubNoDefer_of_forall lg.2 (fun f hf => hsub f (hin f hf)))
+    have hs := hsome lg hlg
+    cases hc : (Spec.completeFields o ty lg.2 p).1 with
+    | none => rw [hc] at hs; cases hs
+    | some vals =>
+      have hd := hspec.2.1
+      simp only [hc] at hd
+      simp [hd]
+  rw [key]; exact hmerge
+
+/-- the response of a query in the defer model: the incremental payloads are the schedule of the groups the initial
+    execution started -/
+theorem exec_deferred_payloads (o : Oracle) (rootTy : String) (fields : List (FInfo × Shape)) :
+    (D.execDeferred o rootTy fields).2 =
+      (D.schedule o 100000 (D.completeFields o rootTy true fields [] {}).2.2.groups).map (D.payloadOf o) := by
+  simp [D.execDeferred, runGroups_eq]
+
+/-- non-vacuity of the fuel premise: one initial group without fields -/
+example : (D.runGroups ({ res := fun _ => .missing, dir := fun _ _ => .pass } : Oracle) 5 [{ path := [], label := "L", ty := "T", fields := [] }] []).length < 5 := by
+  simp [D.runGroups, D.completeFields]
 
 /-! ## the response function's counters (`deferred`, `pendingDeferred`) -/
 
